@@ -1,5 +1,5 @@
 """C07 -- built-in pools are linearizable queues (structural part)."""
-from abtverif import cfg, locks, paths
+from abtverif import cfg, locks, paths, seq
 from abtverif.build import AnalysisBroken
 from . import common
 
@@ -148,6 +148,10 @@ def rule_R2(P, rep):
     def edge_select(F, bid, key, truth, ctx):
         if key and "num_threads" in key:
             return ("if", key, truth)
+        if ctx.cond_node is not None:
+            c = seq.atomic_cmp(F, ctx.cond_node, "ABTI_thread::is_in_pool")
+            if c:
+                return ("inpool?", c, bool(ctx.cond_val))
         return None
 
     expect = {"thread_queue_push_head": "push", "thread_queue_push_tail": "push",
@@ -199,6 +203,12 @@ def rule_R2(P, rep):
                                 why.append("count decremented on a path where num_threads may be 1")
                         else:
                             why.append("unexpected count update %s %s" % (op, v))
+                if kind == "remove":
+                    # the unit must be verified to be queued *inside* the mutator (callers' own tests are unlocked)
+                    chk = [t for t in toks if t[0] == "inpool?"]
+                    if not chk or not (chk[-1][1] == ("acquire", "==", 1) and chk[-1][2] is True):
+                        why.append("unlinks the unit without having verified is_in_pool == 1 (a unit popped by another "
+                                   "stream in the meantime would corrupt the queue)")
                 want = 1 if kind == "push" else 0
                 if not (len(st_inpool) == 1 and st_inpool[0][3] == want and "release" in st_inpool[0][2]):
                     why.append("is_in_pool must be release-stored to %d exactly once (saw %s)" % (want, st_inpool))
